@@ -212,7 +212,7 @@ func runResp(c respCase) harness.Result {
 	return harness.Result{NonTrivial: nt, Labels: labels}
 }
 
-var chkResp = harness.Define("response-roundtrip", genResp, runResp)
+var chkResp = harness.Define("response-roundtrip", genResp, runResp).Repeated(2)
 
 // ---------------------------------------------------------------------------
 // exceptions
@@ -480,7 +480,7 @@ func genBad(t *rapid.T) badCase {
 	return c
 }
 
-var chkBad = harness.Define("bytecount-mismatch", genBad, runBad)
+var chkBad = harness.Define("bytecount-mismatch", genBad, runBad).Repeated(2)
 
 // ---------------------------------------------------------------------------
 
